@@ -114,10 +114,21 @@ def c08_schur_code(ctx, shape):
         ctx.tick()
 
 
+# flux_reduced + stationary AMG on the fixed systems of each shape above max_coarse: the labels that fail on the pinned tree (known finding)
+# (with maxiter=5000 the stationary iteration converges on every other fixed system, after up to ~1200 cycles; on this one it diverges to NaN)
+_SYSTEM_SEEDS = {(12, 12): 3}
+KNOWN_AMG_FAILURES: dict = {(12, 12): (
+    "system 0, ('flux_reduced', 'amg'): solution satisfies the full system",
+    "system 0, ('flux_reduced', 'amg'): multiplier vanishes (zero-mean mass source)",
+    "system 0: ('flux_reduced', 'amg') agrees with the direct full solve",
+    "('flux_reduced', 'amg'): reuse_solver=True from the first call on a fresh object solves the system",
+)}
+
+
 def _solve_cases(tier):
     out = [dict(shape=s, scale=1.0) for s in (_shapes(tier) if tier != "quick" else [(5,), (3, 2), (1, 4), (4, 4), (2, 2, 2), (2, 1, 3), (11, 10)])]
     if tier != "quick":
-        out += [dict(shape=s, scale=1.0) for s in [(11, 10), (16, 18), (7, 8, 6)]]        # above pyamg's max_coarse: multi-level hierarchies
+        out += [dict(shape=s, scale=1.0) for s in [(11, 10), (12, 12), (16, 18), (7, 8, 6)]]        # above pyamg's max_coarse: multi-level hierarchies
     # fine physical resolution: right-hand sides of tiny magnitude (absolute tolerances must not be mistaken for relative ones)
     out += [dict(shape=s, scale=1e-4) for s in [(4, 4), (3, 2, 2)]]
     return out
@@ -127,8 +138,13 @@ def _solve_cases(tier):
     cite="yields the same flux, pressure and multiplier up to solver tolerance, and that solution satisfies the original full system ... reuse of a cached factorisation across successive systems",
     note="bounded: every documented (formulation, back end); convergence of AMG / CG to tolerance is not decidable by contract")
 def c08_solve(ctx, shape, scale):
-    rng = np.random.default_rng(ctx.rng.randrange(1 << 30))
     grid, h = grid_of(shape, scale=scale)
+    big = grid.num_cells + 1 > 100          # pyamg's max_coarse: above it the iterative back ends really iterate
+    # above max_coarse the systems are FIXED per shape (not drawn from VERIF_SEED): the recorded finding lists, by system, where the
+    # stationary AMG iteration fails on the flux-eliminated saddle point, so that any other failing input is still reported
+    import zlib
+    rng = np.random.default_rng(ctx.rng.randrange(1 << 30))
+    rng_sys = np.random.default_rng(_SYSTEM_SEEDS.get(tuple(shape), zlib.crc32(repr(tuple(shape)).encode()))) if big else rng
     combos = [(f, b) for f in FORMULATIONS for b in BACKENDS[f]]
     # history: solver objects for a grid of the SAME shape but other voxel sizes were built and used earlier in this process
     from vf import frame
@@ -140,17 +156,18 @@ def c08_solve(ctx, shape, scale):
         with warnings.catch_warnings():
             warnings.simplefilter("ignore")
             w_other.linear_solve(Jo, ro)
-    ws = {c: solver("newton", grid, base_options(formulation=c[0], linear_solver=c[1], linear_solver_options={"rtol": 1e-11, "atol": 1e-13 if c[1] == "amg" else 0.0, "maxiter": 500})) for c in combos}
+    ws = {c: solver("newton", grid, base_options(formulation=c[0], linear_solver=c[1], linear_solver_options={"rtol": 1e-11, "atol": 1e-13 if c[1] == "amg" else 0.0, "maxiter": 5000 if c[1] == "amg" else 500})) for c in combos}
     w0 = ws[("full", "direct")]
-    systems = [system(w0, rng) for _ in range(3)]
+    systems = [system(w0, rng_sys) for _ in range(3)]
     ref = []
-    big = grid.num_cells + 1 > 100          # pyamg's max_coarse: above it the iterative back ends really iterate
     bad_known, bad_other = [], []
+    listed_amg = KNOWN_AMG_FAILURES.get(tuple(shape), ())
 
     def ens(label, cond, combo=None):
         ctx.ensure(label, cond)
         if not cond:
-            (bad_known if (big and combo is not None and combo[0] == "flux_reduced" and combo[1] == "cg") else bad_other).append(label)
+            known = big and combo is not None and combo[0] == "flux_reduced" and (combo[1] == "cg" or (combo[1] == "amg" and label in listed_amg))
+            (bad_known if known else bad_other).append(label)
     for k, (J, r, _) in enumerate(systems):
         sols = {}
         for c, w in ws.items():
@@ -167,7 +184,8 @@ def c08_solve(ctx, shape, scale):
             ens(f"system {k}: {c} agrees with the direct full solve", float(np.linalg.norm(x - x0)) <= 1e-5 * max(1.0, float(np.linalg.norm(x0))), c)
         ref.append(x0)
     # recorded known finding: the flux-eliminated system keeps the multiplier row (indefinite saddle point); AMG-preconditioned CG does not
-    # converge on it once the hierarchy has more than one level (> 100 unknowns).  (Stationary AMG does converge, slowly: not part of the finding.)
+    # converge on it once the hierarchy has more than one level (> 100 unknowns); stationary AMG converges slowly on most systems and diverges
+    # on some (listed by system in KNOWN_AMG_FAILURES - any other failing amg input is reported)
     ctx.witness("flux_reduced_iterative_above_100_unknowns", bool(bad_known) and not bad_other)
     ctx.ensure("no module- or class-level state written by building / using solver objects (frame)",
                frame.diff(before, frame.snapshot(["darsia.measure.wasserstein", "darsia.utils.fv", "darsia.utils.grid"])) == [])
@@ -175,7 +193,7 @@ def c08_solve(ctx, shape, scale):
     J, r, _ = systems[0]
     for c in combos:
         # a fresh object whose very first solve already asks for reuse (for r in rhss: linear_solve(J, r, reuse_solver=True))
-        wf = solver("newton", grid, base_options(formulation=c[0], linear_solver=c[1], linear_solver_options={"rtol": 1e-11, "atol": 1e-13 if c[1] == "amg" else 0.0, "maxiter": 500}))
+        wf = solver("newton", grid, base_options(formulation=c[0], linear_solver=c[1], linear_solver_options={"rtol": 1e-11, "atol": 1e-13 if c[1] == "amg" else 0.0, "maxiter": 5000 if c[1] == "amg" else 500}))
         for rr in (r, systems[1][1]):
             with warnings.catch_warnings():
                 warnings.simplefilter("ignore")
